@@ -937,3 +937,26 @@ def fstr(*parts):
     for o in out:
         items.extend(o)
     return seq.make(STR, items)
+
+
+# --- development aid: statement coverage of the instrumented modules --------
+_COV = set()
+_COV_NEW = []
+
+
+def cov(filename, lineno):
+    k = (filename, lineno)
+    if k not in _COV:
+        _COV.add(k)
+        _COV_NEW.append(k)
+
+
+def cov_flush():
+    import os as _os
+    d = _os.environ.get('SYMX_COV')
+    if not d or not _COV_NEW:
+        return
+    with open(_os.path.join(d, '%d.txt' % _os.getpid()), 'a') as fh:
+        for f, n in _COV_NEW:
+            fh.write('%s:%d\n' % (f, n))
+    del _COV_NEW[:]
